@@ -98,8 +98,8 @@ INFO = {
     "C20D": ("_select_job_to_resume no longer purges finished jobs first", "the designated job finishes and `bg` is the very next table-touching command"),
 }
 
-STILL_MISSED = {"C06C", "C09D"}
-INITIALLY_MISSED = {"C10C", "C10D", "C14C", "C01C", "C01D", "C02D", "C03C", "C03D", "C04C", "C04D", "C05C", "C07C", "C07D", "C08C", "C08D", "C11D", "C15C", "C16C", "C16D", "C17C", "C17D", "C19C", "C19D", "C01A", "C02A", "C02B", "C04A", "C04B", "C05B", "C06A", "C06B", "C08A", "C08B", "C09A", "C10A", "C10B", "C11A", "C17A", "C17B", "C19A", "C19B", "C20B"}
+STILL_MISSED = {"C06C"}
+INITIALLY_MISSED = {"C09D", "C10C", "C10D", "C14C", "C01C", "C01D", "C02D", "C03C", "C03D", "C04C", "C04D", "C05C", "C07C", "C07D", "C08C", "C08D", "C11D", "C15C", "C16C", "C16D", "C17C", "C17D", "C19C", "C19D", "C01A", "C02A", "C02B", "C04A", "C04B", "C05B", "C06A", "C06B", "C08A", "C08B", "C09A", "C10A", "C10B", "C11A", "C17A", "C17B", "C19A", "C19B", "C20B"}
 
 
 def grab(path, rx):
